@@ -20,6 +20,12 @@ class VariableBoundMinPropagator(VariableBoundPropagator):
         
         range_l = self.target.domain.range_l
         
+        if len(range_l) == 0 or min_v > range_l[-1][1]:
+            # The bound would empty the domain. Either the constraints are
+            # unsatisfiable, which the solver reports, or the bound does
+            # not order the values this way: leave the domain alone
+            return False
+        
 #        print("Min: range_l=" + str(range_l) + " min_v=" + str(min_v))
 
         # Note: assume domain ranges are ordered
